@@ -191,6 +191,9 @@ func (c *Ctx) Inconclusive(why string) {
 // reports and exits after this case and the parent restarts the shard behind it.
 func (c *Ctx) Poison() { c.w.poisoned = true }
 
+// Poisoned reports whether this worker was marked for replacement (a guarded call may still be running).
+func (c *Ctx) Poisoned() bool { return c.w.poisoned }
+
 // Recycle asks for a fresh worker process after this case for housekeeping reasons (e.g. goroutines that finished
 // streams leave behind); unlike Poison it does not count towards the restart limit of the shard.
 func (c *Ctx) Recycle() { c.w.poisoned = true; c.w.recycled = true }
